@@ -78,3 +78,25 @@ def check(ctx, rule, mod, funcs=None):
             else:
                 ctx.holds(rule, key, 'a candidate that fails the test is skipped; the not-found action is outside the per-candidate test')
     return n
+
+
+def none_ends_scan(ctx, rule, mod):
+    """`for t in ...: if X[t] is None: break` - an undefined element ends the scan, the defined elements after it are never looked at.
+    The code base skips undefined timeslices with `continue`; a `break` on the None test is VIOLATED unless nothing but the end of
+    the function follows the loop and the loop body has no other effect (then it is an early exit of a search, covered by check())."""
+    n = 0
+    for q_, f in mod.functions():
+        for node in walk(f):
+            if mod.enclosing_func(node) is not f or not (isinstance(node, ast.If) and len(node.body) == 1 and isinstance(node.body[0], ast.Break) and not node.orelse):
+                continue
+            t = node.test
+            if not (isinstance(t, ast.Compare) and len(t.ops) == 1 and isinstance(t.ops[0], ast.Is) and isinstance(t.comparators[0], ast.Constant) and t.comparators[0].value is None):
+                continue
+            loop = _loop_of(mod, node, f)
+            if loop is None or not isinstance(loop, ast.For) or not _depends_on_loop(loop, t):
+                continue
+            n += 1
+            ctx.violated(rule, '%s:%s#none-ends-scan[%s]' % (mod.relpath.replace('pyerrors/', ''), q_, unparse(t)[:40]),
+                         'the loop over `%s` stops at the first undefined element (`if %s: break`): the defined elements after it are never examined, an undefined first '
+                         'timeslice / padding hides everything behind it' % (unparse(loop.iter), unparse(t)), mod.loc(node))
+    return n
